@@ -144,6 +144,14 @@ pub(super) struct NextResetExpire;
 
 impl Stream {
     pub fn new(id: StreamId, init_send_window: WindowSize, init_recv_window: WindowSize) -> Stream {
+        #[cfg(feature = "verif-hooks")]
+        crate::verif::ev("stream.new", || {
+            vec![
+                u32::from(id) as i64,
+                init_send_window as i64,
+                init_recv_window as i64,
+            ]
+        });
         let mut send_flow = FlowControl::new();
         let mut recv_flow = FlowControl::new();
 
@@ -329,6 +337,8 @@ impl Stream {
     /// If the capacity was limited because of the max_send_buffer_size,
     /// then consider waking the send task again...
     pub fn notify_capacity(&mut self) {
+        #[cfg(feature = "verif-hooks")]
+        crate::verif::ev("stream.notify_capacity", || vec![u32::from(self.id) as i64]);
         self.send_capacity_inc = true;
         tracing::trace!("  notifying task");
         self.notify_send();
@@ -361,12 +371,18 @@ impl Stream {
     }
 
     pub fn notify_send(&mut self) {
+        #[cfg(feature = "verif-hooks")]
+        crate::verif::ev("stream.notify_send", || {
+            vec![u32::from(self.id) as i64, self.send_task.is_some() as i64]
+        });
         if let Some(task) = self.send_task.take() {
             task.wake();
         }
     }
 
     pub fn wait_send(&mut self, cx: &Context) {
+        #[cfg(feature = "verif-hooks")]
+        crate::verif::ev("stream.wait_send", || vec![u32::from(self.id) as i64]);
         self.send_task = Some(cx.waker().clone());
     }
 
